@@ -17,7 +17,7 @@ def run(ctx):
     # exception freedom (index / key / division / log-domain / assert / empty-choice obligations) of the sampler layer under its contracts.
     # The harnesses are shared with C01 / C04 / C08 / C09; their functional postconditions belong to those properties (a change that breaks
     # a weight formula does not make a run fail), so only the safety obligations are claimed here, plus the posts that are C19's own.
-    own_posts = ("C19.resample-precondition", "C19.subtree.", "C19.conc.", "C19.smc.sample.")
+    own_posts = ("C19.resample-precondition", "C19.subtree.", "C19.conc.", "C19.smc.sample.", "C19.recorded.", "C19.finite.")
     ctx.vc_filter = lambda name, kind: kind != "post" or any(t in name for t in own_posts)
     common.smc_contracts(ctx, repo, "C19")
     tr = []
@@ -55,6 +55,17 @@ def run(ctx):
     dsl.verify(ctx, repo, r3, "C19.conc", CC.SAMPLE, CC.h_sample, expect_covers=["K=0", "K>=1"], concretise=conc_replay)
     dsl.verify(ctx, repo, r3, "C19.conc", CC.SAMPLE, CC.h_sample_result, expect_covers=["result"], concretise=conc_replay)
     dsl.verify(ctx, repo, dsl.Registry(), "C19.conc", CC.UPDATE, CC.h_update, expect_covers=["outlier-key", "no-outlier-key"])
+    # "every recorded entry is a well-formed tree over ALL data points": the recorded dictionary is a snapshot that later moves cannot reach
+    from contracts import c06_graph as GR
+
+    dsl.verify(ctx, repo, dsl.Registry(), "C19.recorded.graph", GR.TR + ".to_dict", GR.h_to_dict, expect_covers=["to_dict"])
+    # "finite log_p_one": the genotype allele fractions stay inside [e, 1 - e], so no emission grid holds log 0 (the rest of the emission model is C05's)
+    from contracts import c05_emission as EM
+
+    prev = ctx.vc_filter
+    ctx.vc_filter = lambda name, kind: kind != "post" or "cn-prior.mu" in name
+    dsl.verify(ctx, repo, dsl.Registry(), "C19.finite", EM.PYC + ".get_major_cn_prior", EM.h_major_cn_prior, expect_covers=["major=1,accepted", "major=3,accepted", "major=1,rejected"])
+    ctx.vc_filter = prev
     ctx.trust(*r.assumed)
     ctx.trust(*r2.assumed)
     ctx.trust("option ranges of phyclone.cli.run are the top-level precondition (N >= 1, thresholds and probabilities in [0,1], thin/burnin/num_iters >= 1, alpha > 0, grid >= 11); "
